@@ -210,8 +210,10 @@ def _collect_calls(b: Block, called: set, order: List[int]) -> None:
 
 
 class Renderer:  # pylint: disable=too-many-instance-attributes
-    def __init__(self, atoms: Sequence[Sequence[str]], version: int = 8, subs_first: bool = False, fall_off: bool = False, label_prefix: str = ""):
+    def __init__(self, atoms: Sequence[Sequence[str]], version: int = 8, subs_first: bool = False, fall_off: bool = False, label_prefix: str = "",
+                 pad: Sequence[str] = ("int 7", "pop")):
         self.atoms = atoms
+        self.pad = list(pad)
         self.version = version
         self.subs_first = subs_first
         self.fall_off = fall_off
@@ -262,7 +264,7 @@ class Renderer:  # pylint: disable=too-many-instance-attributes
             self.lines.append("err")
             return True
         elif kind == "pad":
-            self.lines += ["int 7", "pop"]
+            self.lines += self.pad
         elif kind == "call":
             self.lines.append(f"callsub {self.lp}sub_{s[1]}")
         elif kind == "if":
@@ -313,8 +315,6 @@ class Renderer:  # pylint: disable=too-many-instance-attributes
         self.lines = []
         out = [f"#pragma version {self.version}"]
         sub_chunks: List[List[str]] = []
-        main_r = Renderer(self.atoms, self.version, label_prefix=self.lp)
-        main_r.k = 0
         # render main
         self.lines = []
         term = self.block(main)
